@@ -582,7 +582,7 @@ func (w *World) Probe() (ats []TokState, rts []TokState) {
 		st.Exp = int(ar.GetSession().GetExpiresAt(fosite.AccessToken).Sub(w.T0) / Tick)
 		ats = append(ats, st)
 	}
-	if !w.Cfg.NoRTIntro {
+	{ // with refresh-token introspection disabled every refresh token must come back inactive
 		for i, key := range w.Rec.Keys("rt") {
 			t, ok := w.Tok["rt"][key]
 			if !ok {
